@@ -210,7 +210,7 @@ def _crash_violation(ctx, p, what):
     fatal = [ln for ln in txt.splitlines() if ln.startswith("fatal error:") or ln.startswith("panic:")]
     if p.returncode != 0 and fatal and (repo + "/" in txt or "gabriel-vasile/mimetype" in txt):
         frames = [ln.strip() for ln in txt.splitlines() if repo + "/" in ln][:6]
-        return dict(property="C06", kind="process-crash", limit=None, key="C06|crash|" + fatal[0][:80],
+        return dict(property=ctx.prop, kind="process-crash", limit=None, key=ctx.prop + "|crash|" + fatal[0][:80],
                     input_text="%s: %s" % (what, fatal[0]), detail="\n".join(fatal[:2] + frames))
     if p.returncode != 0:
         raise core.Infra("vdrive %s failed (exit %d):\n%s" % (what, p.returncode, txt[-3000:]))
